@@ -3,7 +3,7 @@
   what sits at output paths.
   Model: GrogModel/Exec.lean, GrogModel/Build.lean.
 -/
-import GrogModel.Lemmas.BuildInv
+import GrogModel.Lemmas.BuildNoop
 set_option linter.unusedSectionVars false
 set_option linter.unusedVariables false
 set_option linter.unusedSimpArgs false
@@ -129,6 +129,34 @@ def noop_rebuild (P : Params κ) : Prop :=
     succeeded s1 order = true →
     ∀ fs', (∀ p, (∀ l ∈ order, ∀ t, w.defs l = some t → p ∉ outPaths t) → fs' p = s1.fs p) →
       executed (build P cfg { w with fs := fs', cache := s1.cache } order) = []
+
+/-- **noop_rebuild_partial.** After a successful build (mode `all`, cache enabled, no no-cache target in the
+    selection) an immediate build of the same selection with no edit executes no command — from *any* content at
+    the declared output paths in between (present, deleted, modified: `fs'` is only required to agree with the
+    workspace the first build left *outside* the output paths). Proved under `WF` (in particular resolved inputs
+    and check files disjoint from declared outputs); without that conjunct it is false, see `globout_witness`. -/
+theorem noop_rebuild_partial {P : Params κ} (hG : Good P) (cfg : Cfg) (w : World κ) (order : List Lbl)
+    (hwf : WF w.defs order) (hpl : Plain P cfg w.defs order)
+    (hsucc : succeeded (build P cfg w order) order = true) (fs' : FS)
+    (hfs : ∀ p, (∀ l ∈ order, ∀ t, w.defs l = some t → p ∉ outPaths t) → fs' p = (build P cfg w order).fs p) :
+    executed (build P cfg { w with fs := fs', cache := (build P cfg w order).cache } order) = [] := by
+  have hset := settled_run_aux hG hwf hpl (fuelFor order) order [] (start w) (by simp) (fun l hl => by simp at hl)
+  simp only [List.nil_append] at hset
+  have hok := (succeeded_iff _ order).1 hsucc
+  have hf : ∀ l ∈ order, Settled P w.defs (build P cfg w order) l := fun l hl => hset l hl (hok l hl)
+  have h2 := second_run_aux hG hwf hpl (fuelFor order) (build P cfg w order) hf order []
+    (start { w with fs := fs', cache := (build P cfg w order).cache }) (by simp)
+    ⟨rfl, rfl, hfs, fun l hl => by simp at hl⟩
+  have hlog : (build P cfg { w with fs := fs', cache := (build P cfg w order).cache } order).log = [] := h2.log
+  simp [executed, hlog]
+
+/-- the hypotheses of `noop_rebuild_partial` are satisfiable (the empty selection; non-trivial instances are the
+    generated workspaces of the correspondence check, all of which satisfy `WF`) -/
+example (P : Params Nat) (hfx : P.fx.syncTaint = true ∧ P.fx.gateChecks = true) :
+    WF (fun _ => none) [] ∧ Plain P ⟨true, false⟩ (fun _ => none) [] :=
+  ⟨⟨List.nodup_nil, fun l hl => by simp at hl, fun l t h => by simp at h, fun l hl => by simp at hl,
+    fun pre l suf h => by simp at h, fun l hl => by simp at hl, fun l hl => by simp at hl, fun l hl => by simp at hl⟩,
+   ⟨rfl, rfl, hfx.1, hfx.2, fun l hl => by simp at hl⟩⟩
 
 /-- **globout_witness** (F-globout, open). If a resolved input of `t` is a declared output of its dependency
     (excluded by `WF.inputsOff`), building the dependency changes `t`'s key-state although no source changed: under
